@@ -33,6 +33,7 @@ func CheckC19(e *Env) (int, error) {
 		idx   int
 	}
 	digA, digP := map[key]string{}, map[key]string{}
+	jobFrom := map[key]int{}
 	var lookup [128]byte
 	pairs := 0
 	var diverged []key
@@ -71,6 +72,7 @@ func CheckC19(e *Env) (int, error) {
 			for _, r := range j.Results {
 				a.add(prop, r)
 				k := key{r.World, r.Idx}
+				jobFrom[k] = j.From
 				if r.Variant == "asm" {
 					digA[k] = r.Digest
 					if hs, ok := r.Cfg["lookup_cov"].(string); ok {
@@ -120,7 +122,7 @@ func CheckC19(e *Env) (int, error) {
 				best = k
 			}
 		}
-		path, v, err := e.reportDivergence(binA, binP, best.world, best.idx)
+		path, v, err := e.reportDivergence(binA, binP, best.world, best.idx, jobFrom[best], digA[best], digP[best])
 		if err != nil {
 			return 2, err
 		}
@@ -224,7 +226,7 @@ func firstDiff(a, b []string) (int, string, string) {
 	return -1, "", ""
 }
 
-func (e *Env) reportDivergence(binA, binP, world string, idx int) (string, kernel.Violation, error) {
+func (e *Env) reportDivergence(binA, binP, world string, idx, jobFrom int, batchDigA, batchDigP string) (string, kernel.Violation, error) {
 	// record the tape (asm build)
 	j := &Job{Bin: binA, Variant: "asm", World: world, Prop: "C19", From: idx, N: 1, Extra: []string{"-tape"}}
 	e.runJob(j)
@@ -247,9 +249,48 @@ func (e *Env) reportDivergence(binA, binP, world string, idx int) (string, kerne
 		}
 		return true, ra.Tape
 	}
-	ok, canon := trial(rf.Tape)
+	// The divergence must reproduce from the tape: alone in fresh processes,
+	// or - when it depends on what the processes did before (a pool or cache
+	// that one build has and the other has not) - after the runs that
+	// preceded it in its job, with the job's number of Ps.
+	var ok bool
+	var canon Tape
+	type attempt struct{ prefix, procs int }
+	attempts := []attempt{{0, 1}}
+	if idx > jobFrom || ProcsFor(jobFrom) != 1 {
+		attempts = append(attempts, attempt{idx - jobFrom, ProcsFor(jobFrom)})
+	}
+search:
+	for _, at := range attempts {
+		rf.Prefix, rf.Procs = at.prefix, at.procs
+		for try := 0; try < 3; try++ {
+			if ok, canon = trial(rf.Tape); ok {
+				break search
+			}
+		}
+	}
 	if !ok {
-		return "", kernel.Violation{}, harnessErr("the asm/purego divergence of %s#%d did not reproduce from its recorded tape (harness nondeterminism)", world, idx)
+		// observed in the batch, not reproducible from the tape: the
+		// determinism self-test shows that on the unchanged tree a run is a
+		// pure function of its tape in both builds, so one build depends on
+		// something outside it (sync.Pool / garbage-collector timing)
+		f := false
+		rf.Prefix, rf.Procs, rf.Reproduced = 0, 1, &f
+		v := kernel.Violation{Property: "C19", Class: "build-divergence", Key: world,
+			Detail: fmt.Sprintf("run %s#%d (job from %d) gave history digest %s in the assembly build and %s in the purego build; the difference was not reproduced in %d fresh-process replays of the tape (alone and after the job's earlier runs), so one build depends on state outside the tape", world, idx, jobFrom, batchDigA, batchDigP, 3*len(attempts))}
+		rf.Violation = v
+		rf.Note = "observed, not reproduced"
+		dir := filepath.Join(e.VerifDir, "replays")
+		_ = os.MkdirAll(dir, 0o755)
+		path := filepath.Join(dir, fmt.Sprintf("C19-seed%d-%s-%d.json", e.Seed, world, idx))
+		if err := rf.Save(path); err != nil {
+			return "", v, harnessErr("write replay: %v", err)
+		}
+		Logf("the asm/purego divergence of %s#%d did not reproduce from its tape; reported as observed", world, idx)
+		return path, v, nil
+	}
+	if rf.Prefix > 0 {
+		Logf("the divergence of %s#%d reproduces only after the %d runs that preceded it in its process", world, idx, rf.Prefix)
 	}
 	small, trials, acc := Shrink(canon, trial, budgetSeconds(e.Tier, 60, 300), e.Workers)
 	Logf("minimised divergence: %d trials, %d accepted", trials, acc)
